@@ -173,6 +173,8 @@ type Gen struct {
 	// names that actually occur in the scenario's documents (preferred, so
 	// that paths select something)
 	DocNames, DocAttrs []string
+	// FocusFn: a focus run builds most expressions around this function
+	FocusFn string
 }
 
 func NewGen(r *Rng) *Gen {
@@ -572,10 +574,68 @@ func (g *Gen) Str(depth int) *E {
 	}
 }
 
+// FocusFuncs are the functions a "focus run" builds every expression around.
+var FocusFuncs = []string{"translate", "replace", "matches", "concat", "substring", "substring-before", "contains", "starts-with",
+	"string-join", "count", "sum", "name", "normalize-space", "string-length", "lower-case", "number", "boolean", "not", "reverse"}
+
+// ctxArg: an argument whose value depends on the context node (an attribute of
+// it most of the time), so that evaluating one expression from several context
+// nodes feeds the function different values.
+func (g *Gen) ctxArg() *E {
+	r := g.R
+	switch r.Weighted([]int{6, 2, 1, 1}) {
+	case 0:
+		return &E{Op: "path", Kids: []*E{{Op: "step", S: "attribute", T: g.attrName(), Abbr: true}}}
+	case 1:
+		return &E{Op: "path", Kids: []*E{{Op: "step", S: r.Pick([]string{"self", "parent"}), T: "node()", Abbr: true}}}
+	case 2:
+		return &E{Op: "path", Kids: []*E{{Op: "step", S: "child", T: g.flatTest(), Abbr: true}}}
+	default:
+		return g.strLit(0)
+	}
+}
+
+// Focus builds a call of fn whose arguments are context dependent.
+func (g *Gen) Focus(fn string) *E {
+	r := g.R
+	a := func() *E { return g.ctxArg() }
+	switch fn {
+	case "translate":
+		return &E{Op: "fn", S: fn, Kids: []*E{a(), a(), a()}}
+	case "replace":
+		return &E{Op: "fn", S: fn, Kids: []*E{a(), g.pattern(1), {Op: "str", S: r.Pick(Repls)}}}
+	case "matches":
+		return &E{Op: "fn", S: fn, Kids: []*E{a(), g.pattern(1)}}
+	case "concat":
+		return &E{Op: "fn", S: fn, Kids: []*E{a(), a(), a()}}
+	case "substring":
+		return &E{Op: "fn", S: fn, Kids: []*E{a(), {Op: "num", F: float64(r.Range(0, 3))}, {Op: "num", F: float64(r.Range(0, 3))}}}
+	case "substring-before", "contains", "starts-with":
+		return &E{Op: "fn", S: fn, Kids: []*E{a(), a()}}
+	case "string-join":
+		return &E{Op: "fn", S: fn, Kids: []*E{g.Path(1), a()}}
+	case "count", "sum", "reverse", "boolean", "not", "number":
+		return &E{Op: "fn", S: fn, Kids: []*E{g.NodeSet(1)}}
+	case "name":
+		return &E{Op: "fn", S: r.Pick([]string{"name", "local-name", "namespace-uri"}), Kids: []*E{g.Path(0)}}
+	default: // normalize-space, string-length, lower-case
+		return &E{Op: "fn", S: fn, Kids: []*E{a()}}
+	}
+}
+
 // Top generates a top-level expression for the history / schedule
 // simulations. Node-set comparisons and conversions are favoured, because
 // those are the shapes whose evaluation drives iterator state.
 func (g *Gen) Top() *E {
+	if g.FocusFn != "" && g.R.Chance(3, 4) {
+		e := g.Focus(g.FocusFn)
+		if g.R.Chance(1, 3) {
+			// as a predicate: evaluated once per candidate, i.e. from many context nodes in one call
+			return &E{Op: "path", S: "//", Kids: []*E{{Op: "step", S: "child", T: "*", Abbr: true, Kids: []*E{
+				{Op: "bin", S: "=", Kids: []*E{e, g.lit()}}}}}}
+		}
+		return e
+	}
 	d := g.MaxDepth
 	switch g.R.Weighted([]int{8, 6, 3, 3}) {
 	case 0:
